@@ -5,14 +5,11 @@
   been listed and indexed once."
 
   Part I  (index): for every configuration of index handlers with distinct ids, every event list
-          (any objects, colliding keys, any result/error script, any times), every value-equality
-          test `veq` (Python's `==`) —
+          (any objects, colliding keys, any result/error script, any times) —
           `run_total` (no `KeyError` inside the index), `fwd_rev_consistent`, `no_empty_collections`,
-          `mirror_upto_pyeq` (index = groupBy of the documented per-object reference, where a stored
-          value may be an *older* result that `==` cannot tell from the latest), `mirror_partial`
-          (exact equality when `==` identifies only identical values), `mirror_witness` (the exact
-          statement is FALSE of the code for Python's `==`: `True == 1`; finding C17/F1),
-          and the keep/remove table as one-step lemmas.
+          `keys_unique`, `mirror` (index = groupBy of the documented per-object reference, exactly;
+          unconditional since kopf 5068b98 repaired finding C17-F1), and the keep/remove table as
+          one-step lemmas.
   Part II (gate): for every interleaving of the labelled transition system of the gate, with any
           number of `spawn_missing_watchers` batches — `gate_safe`, `pass_safe`, `detach_safe`,
           `ungated_only_after_ready`, `late_kind_witness` (by design, F4); beyond the property:
@@ -32,101 +29,81 @@ variable {Id Res L K V O : Type} [DecidableEq Id] [DecidableEq Res] [DecidableEq
 
 /-- **No `KeyError`**: the forward/reverse bookkeeping never reaches the `self.__items[obj_key]`
     lookup with a key the forward map lacks — processing is total for every history. -/
-theorem run_total (veq : V → V → Bool) (cfg : List (Indexer Id Res L)) (bk : Nat) (hnd : (cfg.map (·.id)).Nodup)
-    (evs : List (Event Id Res L K V O)) : ∃ s, run veq cfg bk (State.init : State Id K V O) evs = some s := by
-  obtain ⟨s, h, _⟩ := mirror_gen veq cfg bk hnd evs State.init _ State.invAll_init (link_init veq cfg)
+theorem run_total (cfg : List (Indexer Id Res L)) (bk : Nat) (hnd : (cfg.map (·.id)).Nodup)
+    (evs : List (Event Id Res L K V O)) : ∃ s, run cfg bk (State.init : State Id K V O) evs = some s := by
+  obtain ⟨s, h, _⟩ := mirror_gen cfg bk hnd evs State.init _ State.invAll_init (link_init cfg)
   exact ⟨s, h⟩
 
 /-- **Forward and reverse maps agree** after any history: `k ∈ rev[o] ↔ o ∈ fwd[k]`, for every
     indexer (configured or not). -/
-theorem fwd_rev_consistent (veq : V → V → Bool) (cfg : List (Indexer Id Res L)) (bk : Nat) (hnd : (cfg.map (·.id)).Nodup)
+theorem fwd_rev_consistent (cfg : List (Indexer Id Res L)) (bk : Nat) (hnd : (cfg.map (·.id)).Nodup)
     (evs : List (Event Id Res L K V O)) (s : State Id K V O)
-    (h : run veq cfg bk State.init evs = some s) (i : Id) (k : Option K) (o : O) :
+    (h : run cfg bk State.init evs = some s) (i : Id) (k : Option K) (o : O) :
     k ∈ (s.ixs i).rkeys o ↔ ((s.ixs i).val k o).isSome := by
-  obtain ⟨s', h', hi, _⟩ := mirror_gen veq cfg bk hnd evs State.init _ State.invAll_init (link_init veq cfg)
+  obtain ⟨s', h', hi, _⟩ := mirror_gen cfg bk hnd evs State.init _ State.invAll_init (link_init cfg)
   rw [h] at h'; cases h'
   exact (hi i).cons k o
 
 /-- **No empty collections are left behind** ("Collections are never empty: they are removed when
     their last item is removed"), in the forward and in the reverse map. -/
-theorem no_empty_collections (veq : V → V → Bool) (cfg : List (Indexer Id Res L)) (bk : Nat) (hnd : (cfg.map (·.id)).Nodup)
+theorem no_empty_collections (cfg : List (Indexer Id Res L)) (bk : Nat) (hnd : (cfg.map (·.id)).Nodup)
     (evs : List (Event Id Res L K V O)) (s : State Id K V O)
-    (h : run veq cfg bk State.init evs = some s) (i : Id) :
+    (h : run cfg bk State.init evs = some s) (i : Id) :
     (∀ k st, aget k (s.ixs i).items = some st → st ≠ []) ∧
     (∀ o ks, aget o (s.ixs i).reverse = some ks → ks ≠ []) := by
-  obtain ⟨s', h', hi, _⟩ := mirror_gen veq cfg bk hnd evs State.init _ State.invAll_init (link_init veq cfg)
+  obtain ⟨s', h', hi, _⟩ := mirror_gen cfg bk hnd evs State.init _ State.invAll_init (link_init cfg)
   rw [h] at h'; cases h'
   exact ⟨(hi i).storeNe, (hi i).revNe⟩
 
-/-- **Mirror (full strength, for every `==`).** After any history, every index equals `groupBy`
-    of the reference up to Python equality: under key `k`, object `o` has a value iff its *latest
-    documented contribution* has one under `k` (nothing when it was deleted, stopped matching,
-    failed temporarily/permanently, used up its retries/timeout or is excluded; the previous values
-    when the function returned `None` or its error was ignored; `{None: v}` for a non-mapping
-    result), and the stored value is that latest value, or (`RelH`) an *older result*: a value that
-    the same function returned for the same object under the same key earlier and that `==` does not
-    distinguish from the latest one (`Store._replace` skips the update then).
+/-- **Mirror.** After any history, every index equals `groupBy` of the reference: under key `k`,
+    object `o` contributes exactly the value its *latest documented contribution* has under `k`
+    (nothing when it was deleted, stopped matching, failed temporarily/permanently, used up its
+    retries/timeout or is excluded; the previous values when the function returned `None` or its
+    error was ignored; `{None: v}` for a non-mapping result).
+    Unconditional since kopf 5068b98 (`Store._replace` assigns always); before it the statement was
+    false for `==`-twins such as `1`/`True` (repaired finding C17-F1; regression example below).
     The model runs events one after another: `OperatorIndexers.replace/discard` are synchronous and
     touch only the event's own object key (`others_untouched`), so concurrent workers of different
     objects commute on the indices. -/
-theorem mirror_upto_pyeq (veq : V → V → Bool) (cfg : List (Indexer Id Res L)) (bk : Nat)
-    (hnd : (cfg.map (·.id)).Nodup)
+theorem mirror (cfg : List (Indexer Id Res L)) (bk : Nat) (hnd : (cfg.map (·.id)).Nodup)
     (evs : List (Event Id Res L K V O)) (s : State Id K V O)
-    (h : run veq cfg bk State.init evs = some s) (c : Indexer Id Res L) (hc : c ∈ cfg) (k : Option K) (o : O) :
-    RelH veq (refRun cfg bk c o RefSt.init evs).hist k ((s.ixs c.id).val k o)
-      (groupBy (fun o => (refRun cfg bk c o RefSt.init evs).contrib) k o) := by
-  obtain ⟨s', h', _, hl⟩ := mirror_gen veq cfg bk hnd evs State.init _ State.invAll_init (link_init veq cfg)
-  rw [h] at h'; cases h'
-  exact (hl c hc o).2.2 k
-
-/- Full statement of the property's first sentence (FALSE of the code, see `mirror_witness`):
-     ∀ veq …, (s.ixs c.id).val k o = groupBy (fun o => (refRun cfg bk c o RefSt.init evs).contrib) k o
-   Proved below under a guard on the HISTORY that Python's own `==` (`J.pyEq`) can satisfy. -/
-/-- **Mirror (exact), partial**: for an object none of whose results (of this index function) contains
-    `==`-twins — two values under one key that compare equal but differ, like `1`/`True` — the index
-    holds exactly the latest documented values. The guard is sufficient, and it is what finding
-    C17-F1 is about: `mirror_witness` violates it with the smallest possible history. -/
-theorem mirror_partial (veq : V → V → Bool)
-    (cfg : List (Indexer Id Res L)) (bk : Nat) (hnd : (cfg.map (·.id)).Nodup)
-    (evs : List (Event Id Res L K V O)) (s : State Id K V O)
-    (h : run veq cfg bk State.init evs = some s) (c : Indexer Id Res L) (hc : c ∈ cfg) (k : Option K) (o : O)
-    (hnt : NoTwins veq (refRun cfg bk c o RefSt.init evs).hist) :
+    (h : run cfg bk State.init evs = some s) (c : Indexer Id Res L) (hc : c ∈ cfg) (k : Option K) (o : O) :
     (s.ixs c.id).val k o = groupBy (fun o => (refRun cfg bk c o RefSt.init evs).contrib) k o := by
-  obtain ⟨s', h', _, hl⟩ := mirror_gen veq cfg bk hnd evs State.init _ State.invAll_init (link_init veq cfg)
+  obtain ⟨s', h', _, hl⟩ := mirror_gen cfg bk hnd evs State.init _ State.invAll_init (link_init cfg)
   rw [h] at h'; cases h'
-  exact RelH.eq_of_noTwins (hl c hc o).2.1 hnt ((hl c hc o).2.2 k)
+  exact (hl c hc o).2 k
 
 /-- **Keys are unique** in `Index.__items`, in every `Store.__items` and in `Index.__reverse` after
     any history: the association lists of the model denote Python dicts (so the first-match lookups
     `Index.val`/`aget` used by the other theorems see everything the real views iterate over). -/
-theorem keys_unique (veq : V → V → Bool) (cfg : List (Indexer Id Res L)) (bk : Nat)
+theorem keys_unique (cfg : List (Indexer Id Res L)) (bk : Nat)
     (evs : List (Event Id Res L K V O)) (s : State Id K V O)
-    (h : run veq cfg bk State.init evs = some s) (i : Id) : (s.ixs i).ND :=
-  run_nd veq cfg bk evs State.init s (fun _ => Index.nd_empty) h i
+    (h : run cfg bk State.init evs = some s) (i : Id) : (s.ixs i).ND :=
+  run_nd cfg bk evs State.init s (fun _ => Index.nd_empty) h i
 
 /-- … and the in-memory exclusion record is the reference's. -/
-theorem mirror_exclusions (veq : V → V → Bool) (cfg : List (Indexer Id Res L)) (bk : Nat) (hnd : (cfg.map (·.id)).Nodup)
+theorem mirror_exclusions (cfg : List (Indexer Id Res L)) (bk : Nat) (hnd : (cfg.map (·.id)).Nodup)
     (evs : List (Event Id Res L K V O)) (s : State Id K V O)
-    (h : run veq cfg bk State.init evs = some s) (c : Indexer Id Res L) (hc : c ∈ cfg) (o : O) :
+    (h : run cfg bk State.init evs = some s) (c : Indexer Id Res L) (hc : c ∈ cfg) (o : O) :
     s.mem o c.id = (refRun cfg bk c o RefSt.init evs).excl := by
-  obtain ⟨s', h', _, hl⟩ := mirror_gen veq cfg bk hnd evs State.init _ State.invAll_init (link_init veq cfg)
+  obtain ⟨s', h', _, hl⟩ := mirror_gen cfg bk hnd evs State.init _ State.invAll_init (link_init cfg)
   rw [h] at h'; cases h'
   exact (hl c hc o).1
 
 /-- every state reached by `run` satisfies the per-index invariant (used by the table below) -/
-theorem invAll_of_run (veq : V → V → Bool) (cfg : List (Indexer Id Res L)) (bk : Nat) (hnd : (cfg.map (·.id)).Nodup)
+theorem invAll_of_run (cfg : List (Indexer Id Res L)) (bk : Nat) (hnd : (cfg.map (·.id)).Nodup)
     (evs : List (Event Id Res L K V O)) (s : State Id K V O)
-    (h : run veq cfg bk State.init evs = some s) : s.InvAll := by
-  obtain ⟨s', h', hi, _⟩ := mirror_gen veq cfg bk hnd evs State.init _ State.invAll_init (link_init veq cfg)
+    (h : run cfg bk State.init evs = some s) : s.InvAll := by
+  obtain ⟨s', h', hi, _⟩ := mirror_gen cfg bk hnd evs State.init _ State.invAll_init (link_init cfg)
   rw [h] at h'; cases h'
   exact hi
 
 /-! #### the keep/remove table, one processed event at a time -/
 
 section Table
-variable (veq : V → V → Bool) (cfg : List (Indexer Id Res L)) (bk : Nat) (hnd : (cfg.map (·.id)).Nodup)
+variable (cfg : List (Indexer Id Res L)) (bk : Nat) (hnd : (cfg.map (·.id)).Nodup)
   (s s' : State Id K V O) (e : Event Id Res L K V O) (hi : s.InvAll)
-  (hs : step veq cfg bk s e = some s') (c : Indexer Id Res L) (hc : c ∈ cfg)
+  (hs : step cfg bk s e = some s') (c : Indexer Id Res L) (hc : c ∈ cfg)
 include hnd hi hs hc
 
 /-- **Frame**: an event touches the index entries of its own object only. This is what justifies
@@ -134,25 +111,25 @@ include hnd hi hs hc
     different objects commute. -/
 theorem others_untouched (k : Option K) (o : O) (ho : o ≠ e.obj) :
     (s'.ixs c.id).val k o = (s.ixs c.id).val k o := by
-  rw [view_of_step veq cfg bk hnd s s' e hi hs c hc, view_other _ _ _ _ _ _ ho]
+  rw [view_of_step cfg bk hnd s s' e hi hs c hc, view_other _ _ _ _ _ ho]
 
 /-- `DELETED`: the object's values are removed (when its kind is indexed at all). -/
 theorem deleted_discards (hk : cfg.any (fun c' => decide (c'.res = e.res)) = true)
     (hd : e.deleted = true) (k : Option K) : (s'.ixs c.id).val k e.obj = none := by
-  rw [view_of_step veq cfg bk hnd s s' e hi hs c hc]
+  rw [view_of_step cfg bk hnd s s' e hi hs c hc]
   simp [actOf, hk, hd, Act.view]
 
 /-- filter (or kind) mismatch: the object's values are removed. -/
 theorem mismatch_discards (hk : cfg.any (fun c' => decide (c'.res = e.res)) = true)
     (hm : c.selects e = false) (k : Option K) : (s'.ixs c.id).val k e.obj = none := by
-  rw [view_of_step veq cfg bk hnd s s' e hi hs c hc]
+  rw [view_of_step cfg bk hnd s s' e hi hs c hc]
   by_cases hd : e.deleted = true <;> simp [actOf, hk, hd, invoked, hm, Act.view]
 
 /-- excluded (failed permanently, or failed temporarily and the delay has not passed):
     the function is not called and the object stays out of the index. -/
 theorem excluded_stays_out (hk : cfg.any (fun c' => decide (c'.res = e.res)) = true)
     (hx : (hOf s e c).awake e.t = false) (k : Option K) : (s'.ixs c.id).val k e.obj = none := by
-  rw [view_of_step veq cfg bk hnd s s' e hi hs c hc]
+  rw [view_of_step cfg bk hnd s s' e hi hs c hc]
   by_cases hd : e.deleted = true <;> simp [actOf, hk, hd, invoked, hx, Act.view]
 
 /-- a `None` result keeps the existing values (budget of `retries=`/`timeout=` not used up) -/
@@ -160,7 +137,7 @@ theorem none_keeps (hv : invoked s e c = true) (hd : e.deleted = false)
     (hl : c.exhausted (hOf s e c) e.t = false)
     (hr : e.script c.id = .none) (k : Option K) :
     (s'.ixs c.id).val k e.obj = (s.ixs c.id).val k e.obj := by
-  rw [view_of_step veq cfg bk hnd s s' e hi hs c hc]
+  rw [view_of_step cfg bk hnd s s' e hi hs c hc]
   unfold actOf execOne
   by_cases hk : cfg.any (fun c' => decide (c'.res = e.res)) = true <;>
     simp [hk, hd, hv, hr, hl, Act.view]
@@ -170,7 +147,7 @@ theorem ignored_error_keeps (hv : invoked s e c = true) (hd : e.deleted = false)
     (hl : c.exhausted (hOf s e c) e.t = false)
     (hr : e.script c.id = .otherErr) (hmode : c.errors = none ∨ c.errors = some .ignored) (k : Option K) :
     (s'.ixs c.id).val k e.obj = (s.ixs c.id).val k e.obj := by
-  rw [view_of_step veq cfg bk hnd s s' e hi hs c hc]
+  rw [view_of_step cfg bk hnd s s' e hi hs c hc]
   unfold actOf execOne
   by_cases hk : cfg.any (fun c' => decide (c'.res = e.res)) = true <;>
     rcases hmode with hm | hm <;> simp [hk, hd, hv, hr, hm, hl, Act.view]
@@ -181,7 +158,7 @@ theorem error_discards (hk : cfg.any (fun c' => decide (c'.res = e.res)) = true)
     (hr : (∃ d, e.script c.id = .tempErr d) ∨ e.script c.id = .permErr ∨
           (e.script c.id = .otherErr ∧ (c.errors = some .temporary ∨ c.errors = some .permanent)))
     (k : Option K) : (s'.ixs c.id).val k e.obj = none := by
-  rw [view_of_step veq cfg bk hnd s s' e hi hs c hc]
+  rw [view_of_step cfg bk hnd s s' e hi hs c hc]
   have hx : (execOne c bk e.t (hOf s e c) (e.script c.id)).exception = true := by
     unfold execOne
     rcases hr with ⟨d, hr⟩ | hr | ⟨hr, hm | hm⟩ <;> rw [hr] <;> (try rw [hm]) <;>
@@ -196,50 +173,36 @@ theorem error_discards (hk : cfg.any (fun c' => decide (c'.res = e.res)) = true)
     series passed) removes the values without calling the function -/
 theorem exhausted_discards (hk : cfg.any (fun c' => decide (c'.res = e.res)) = true)
     (hl : c.exhausted (hOf s e c) e.t = true) (k : Option K) : (s'.ixs c.id).val k e.obj = none := by
-  rw [view_of_step veq cfg bk hnd s s' e hi hs c hc]
+  rw [view_of_step cfg bk hnd s s' e hi hs c hc]
   by_cases hd : e.deleted = true
   · simp [actOf, hk, hd, Act.view]
   · by_cases hv : invoked s e c = true
     · simp [actOf, execOne, hk, hd, hv, hl, Act.view]
     · simp [actOf, hk, hd, hv, Act.view]
 
-/-- a mapping result replaces the object's values by its items (up to `==`, see `mirror_upto_pyeq`) -/
+/-- a mapping result replaces the object's values by exactly its items -/
 theorem dict_replaces (hv : invoked s e c = true) (hd : e.deleted = false)
     (hk : cfg.any (fun c' => decide (c'.res = e.res)) = true)
     (hl : c.exhausted (hOf s e c) e.t = false)
     (m : List (Option K × V)) (hr : e.script c.id = .dict m) (k : Option K) :
-    Rel veq ((s'.ixs c.id).val k e.obj) (lastval k m) := by
-  rw [view_of_step veq cfg bk hnd s s' e hi hs c hc]
-  have hact : actOf cfg bk s e c = .replace m := by
-    unfold actOf execOne
-    simp [hk, hd, hv, hr, hl]
-  rw [hact]
-  simp only [Act.view, if_true]
-  by_cases hkm : k ∈ m.map Prod.fst
-  · simp only [hkm, if_true]
-    exact foldVal_rel veq k m _ hkm
-  · rw [lastval_none_of_not_mem k m hkm]
-    simp [hkm, Rel]
+    (s'.ixs c.id).val k e.obj = lastval k m := by
+  rw [view_of_step cfg bk hnd s s' e hi hs c hc]
+  unfold actOf execOne
+  simp [hk, hd, hv, hr, hl, Act.view]
 
-/-- any other non-`None` result `v` is stored as `{None: v}` (up to `==`) -/
+/-- any other non-`None` result `v` is stored as `{None: v}` -/
 theorem scalar_under_none_key (hv : invoked s e c = true) (hd : e.deleted = false)
     (hk : cfg.any (fun c' => decide (c'.res = e.res)) = true)
     (hl : c.exhausted (hOf s e c) e.t = false)
     (v : V) (hr : e.script c.id = .scalar v) (k : Option K) :
-    Rel veq ((s'.ixs c.id).val k e.obj) (if k = none then some v else none) := by
-  rw [view_of_step veq cfg bk hnd s s' e hi hs c hc]
-  have hact : actOf cfg bk s e c = .replace [(none, v)] := by
-    unfold actOf execOne
-    simp [hk, hd, hv, hr, hl]
-  rw [hact]
-  simp only [Act.view, if_true]
+    (s'.ixs c.id).val k e.obj = if k = none then some v else none := by
+  rw [view_of_step cfg bk hnd s s' e hi hs c hc]
+  unfold actOf execOne
+  simp only [hk, hd, hv, hr, hl, Act.view]
   by_cases hkn : k = none
-  · subst hkn
-    have := foldVal_rel veq (none : Option K) [(none, v)] ((s.ixs c.id).val none e.obj) (by simp)
-    simpa [lastval] using this
-  · have hkm : k ∉ ([(none, v)] : List (Option K × V)).map Prod.fst := by
-      simp only [List.map_cons, List.map_nil, List.mem_singleton]; exact hkn
-    simp [hkm, hkn, Rel]
+  · simp [hkn, lastval]
+  · simp [hkn, lastval]
+    exact fun h => hkn h.symm
 
 end Table
 end Index
@@ -268,19 +231,19 @@ private def hist : List (Event Nat Nat Nat Nat Nat Nat) :=
 example : (cfgEx.map (·.id)).Nodup := by decide
 
 -- the hypotheses of the table lemmas are met along this history, and the final views are as documented
-example : (run (fun a b => a == b) cfgEx 60 (State.init : State Nat Nat Nat Nat) hist).map
+example : (run cfgEx 60 (State.init : State Nat Nat Nat Nat) hist).map
     (fun s => ((s.ixs 1).val (some 2) 10, (s.ixs 1).val (some 1) 10, (s.ixs 1).val (some 1) 11,
                (s.ixs 2).val none 10, (s.ixs 2).val (some 1) 10))
     = some (some 104, none, none, none, none) := by decide
 
 -- hypotheses of the table lemmas are satisfiable: after two events, the third one calls both
 -- functions (`invoked`), and after it index 1 is excluded at t = 3 (`awake = false`, backoff 3)
-example : (run (fun a b => a == b) cfgEx 60 (State.init : State Nat Nat Nat Nat) (hist.take 2)).map
+example : (run cfgEx 60 (State.init : State Nat Nat Nat Nat) (hist.take 2)).map
     (fun s => (invoked s (ev 2 10 false (some 7) .otherErr .otherErr) ⟨2, 0, none, none, none, none, none⟩,
                invoked s (ev 2 10 false (some 7) .otherErr .otherErr) ⟨1, 0, some 7, some .temporary, some 2, some 3, none⟩))
     = some (true, true) := by decide
 
-example : (run (fun a b => a == b) cfgEx 60 (State.init : State Nat Nat Nat Nat) (hist.take 3)).map
+example : (run cfgEx 60 (State.init : State Nat Nat Nat Nat) (hist.take 3)).map
     (fun s => (hOf s (ev 3 10 false (some 7) .none .none) ⟨1, 0, some 7, some .temporary, some 2, some 3, none⟩).awake 3)
     = some false := by decide
 
@@ -292,40 +255,23 @@ example : (refRun cfgEx 60 ⟨2, 0, none, none, none, none, none⟩ 10 (RefSt.in
 example : (refRun cfgEx 60 ⟨3, 0, none, some .temporary, none, some 1, some 4⟩ 10 (RefSt.init : RefSt Nat Nat) hist).excl
     = some ⟨3, none, true, 0⟩ := by decide
 
-example : (run (fun a b => a == b) cfgEx 60 (State.init : State Nat Nat Nat Nat) (hist.take 4)).map
+example : (run cfgEx 60 (State.init : State Nat Nat Nat Nat) (hist.take 4)).map
     (fun s => (⟨3, 0, none, some .temporary, none, some 1, some 4⟩ : Indexer Nat Nat Nat).exhausted
                 (hOf s (ev 5 10 false (some 8) .none .none) ⟨3, 0, none, some .temporary, none, some 1, some 4⟩) 5)
     = some true := by decide
 
-/-! #### the exact mirror statement is false for Python's `==` (finding C17/F1) -/
+/-! #### regression for the repaired finding C17-F1 (kopf 5068b98) -/
 
 private def cW : Indexer Nat Nat Nat := ⟨1, 0, none, none, none, none, none⟩
 
 private def evW (t : Nat) (v : J) : Event Nat Nat Nat Nat J Nat :=
   ⟨t, 0, 10, false, none, fun _ => .dict [(some 1, v)]⟩
 
-/-- One object returns `{1: 1}` and then `{1: True}` from the same index function: the index keeps
-    `1` (`Store._replace`: `self.__items[acckey] != obj` is `1 != True` = `False`), while the
-    documented content — the latest result — is `True`. So `mirror_partial`'s guard is necessary. -/
-theorem mirror_witness :
-    ∃ (evs : List (Event Nat Nat Nat Nat J Nat)) (s : State Nat Nat J Nat),
-      run J.pyEq [cW] 60 State.init evs = some s ∧
-      (s.ixs 1).val (some 1) 10 = some (J.num 1) ∧
-      groupBy (fun o => (refRun [cW] 60 cW o RefSt.init evs).contrib) (some 1) 10 = some (J.bool true) ∧
-      J.num 1 ≠ J.bool true :=
-  ⟨[evW 0 (J.num 1), evW 1 (J.bool true)], _, rfl, rfl, rfl, by intro h; cases h⟩
-
-/-- the guard of `mirror_partial` is satisfiable with Python's real `==`: the same function returns
-    `{1: "a"}` then `{1: "b"}` for one object — no twins, so the index holds exactly `"b"` -/
-example : NoTwins J.pyEq (refRun [cW] 60 cW 10 (RefSt.init : RefSt Nat J) [evW 0 (J.str "a"), evW 1 (J.str "b")]).hist := by
-  intro m1 h1 m2 h2 k v1 v2 e1 e2 hv
-  have hh : (refRun [cW] 60 cW 10 (RefSt.init : RefSt Nat J) [evW 0 (J.str "a"), evW 1 (J.str "b")]).hist
-      = [[(some 1, J.str "b")], [(some 1, J.str "a")]] := rfl
-  rw [hh] at h1 h2
-  simp only [List.mem_cons, List.mem_nil_iff, or_false] at h1 h2
-  rcases h1 with rfl | rfl <;> rcases h2 with rfl | rfl <;>
-    simp only [List.mem_cons, List.mem_nil_iff, or_false, Prod.mk.injEq] at e1 e2 <;>
-    obtain ⟨_, rfl⟩ := e1 <;> obtain ⟨_, rfl⟩ := e2 <;> first | rfl | (exact absurd hv (by decide))
+/-- One object returns `{1: 1}` and then `{1: True}` from the same index function: the index holds
+    `True`, the latest result (before 5068b98 `Store._replace` skipped the update because
+    `1 != True` is `False`, and the index kept `1`). -/
+example : (run [cW] 60 (State.init : State Nat Nat J Nat) [evW 0 (J.num 1), evW 1 (J.bool true)]).map
+    (fun s => match (s.ixs 1).val (some 1) 10 with | some (J.bool true) => true | _ => false) = some true := rfl
 
 end Examples
 
